@@ -118,7 +118,7 @@ def run_history(ld, n, segments, workdir):
             p = subprocess.run([sys.executable, '-c', CHILD], input=json.dumps(dict(n=n, dir=cdir, ops=local)),
                                capture_output=True, text=True, env=env, timeout=120)
             if p.returncode != -signal.SIGKILL:
-                raise common.HarnessError(f'child did not die by SIGKILL: rc={p.returncode} {p.stderr[-800:]}')
+                raise common.ImplMisbehaviour(f'the child process running lifecycle segment {local} on n={n} ended with rc={p.returncode} instead of being killed: {p.stderr[-800:]}')
             outs, calls = json.loads(p.stdout)
         nnew = 0
         for o in outs:
@@ -170,7 +170,7 @@ def coq_ops(segments):
 
 def coq_out(o):
     k = o[0]
-    if k == 'val': return f'(DVal nat {o[1]}%nat)'
+    if k == 'val': return f'(DVal nat {o[1] if o[1] >= 0 else 999983}%nat)'        # a foreign value: well-typed, matches nothing
     if k == 'indexerror': return '(DIndexError nat)'
     if k == 'nohandle': return '(DNoHandle nat)'
     if k == 'new': return f'(DNew nat {o[1]}%nat)'
